@@ -206,7 +206,8 @@ Inductive mev :=
 | ESucc (host : string) (t0 t1 : Z) (after : snap)               (* OnSuccess *)
 | EBurst (host : string) (ivs : list (Z * Z)) (after : snap)     (* concurrent Waits on a present host *)
 | EMix (host : string) (ivs : list (Z * Z)) (extra : Z) (after : snap)
-| EConc (host : string) (ivsA : list (Z * Z)) (thr : option Z) (ivsB : list (Z * Z)) (ngets : Z) (after : snap).
+| EConc (host : string) (ivsA : list (Z * Z)) (thr : option Z) (ivsB : list (Z * Z)) (ngets : Z) (after : snap)
+| EBlk (host : string) (t0 t1 : Z) (after : snap).      (* a Wait started at t0, still blocked at t1 *)
     (* [ngets] calls for one host started together: releases [ivsA] observed among the calls that
        were concurrent with an optional throttling AdjustOnFailure (entered at or after [thr]),
        releases [ivsB] among calls started after it had returned; calls still blocked when the
@@ -227,14 +228,15 @@ Definition EF (h : string) (s : zi) (t0 t1 : int) (a : wsnap) := EFail h (zi_Z s
 Definition ES (h : string) (t0 t1 : int) (a : wsnap) := ESucc h (iz t0) (iz t1) (snap_of a).
 Definition EB (h : string) (v : wivs) (a : wsnap) := EBurst h (ivs_of v) (snap_of a).
 Definition EM (h : string) (v : wivs) (x : int) (a : wsnap) := EMix h (ivs_of v) (iz x) (snap_of a).
+Definition EK (h : string) (t0 t1 : int) (a : wsnap) := EBlk h (iz t0) (iz t1) (snap_of a).
 Definition EC (h : string) (va : wivs) (thr : zi) (vb : wivs) (n : int) (a : wsnap) :=
   EConc h (ivs_of va) (match thr with ZT0 => None | z => Some (zi_Z z) end) (ivs_of vb) (iz n) (snap_of a).
 Definition MC (mx : zi) (c r : fl) (evs : list mev) : mcase := MC0 (zi_Z mx) c r evs.
 
 Definition ev_after (e : mev) : snap :=
-  match e with EWait _ _ _ a => a | EFail _ _ _ _ a => a | ESucc _ _ _ a => a | EBurst _ _ a => a | EMix _ _ _ a => a | EConc _ _ _ _ _ a => a end.
+  match e with EWait _ _ _ a => a | EFail _ _ _ _ a => a | ESucc _ _ _ a => a | EBurst _ _ a => a | EMix _ _ _ a => a | EConc _ _ _ _ _ a => a | EBlk _ _ _ a => a end.
 Definition ev_host (e : mev) : string :=
-  match e with EWait h _ _ _ => h | EFail h _ _ _ _ => h | ESucc h _ _ _ => h | EBurst h _ _ => h | EMix h _ _ _ => h | EConc h _ _ _ _ _ => h end.
+  match e with EWait h _ _ _ => h | EFail h _ _ _ _ => h | ESucc h _ _ _ => h | EBurst h _ _ => h | EMix h _ _ _ => h | EConc h _ _ _ _ _ => h | EBlk h _ _ _ => h end.
 (* number of getBucket calls the event makes *)
 Definition ev_gets (e : mev) : nat :=
   match e with EBurst _ ivs _ => length ivs | EMix _ ivs x _ => (length ivs + Z.to_nat x)%nat
@@ -298,6 +300,7 @@ Fixpoint host_evs (h : string) (present : bool) (l : list mev) : list hev :=
           | ESucc _ _ _ _ => []
           | EBurst _ ivs _ => map (fun '(t0, t1) => HRel t0 t1) ivs
           | EMix _ ivs _ _ => map (fun '(t0, t1) => HRel t0 t1) ivs
+          | EBlk _ _ _ _ => []
           | EConc _ a thr b _ _ =>
               map (fun '(t0, t1) => HRel t0 t1) a ++
               (match thr with Some f => [HThr f] | None => [] end) ++
@@ -482,5 +485,132 @@ Fixpoint amon_from (l : list (Z * Z * Z)) : bool :=
   end.
 Definition amon_penalty (c : acase) : bool := amon_from (a_evs c).
 
+(* 1: every failure answer is reported as a failure ("5xx only lower the rate", seen through the
+   archiver).  Item 1 talks to a fresh bucket; nf of its answers are failures by the property's
+   classes (any status >= 500, 500 included, or 429/408/425), and only its last answer can be a
+   success.  Then the failure count read after item 1 is nf (nf - 1 or nf if a success followed: a
+   success takes one failure back unless a penalty is in force), and if a 5xx was answered the rate
+   is strictly below the configured rate and never above it. *)
+Definition fail_class (s : Z) : bool := (500 <=? s) || (s =? 429) || (s =? 408) || (s =? 425).
+Definition amon_reported (c : acase) : bool :=
+  match a_state c with
+  | None => true
+  | Some (f, x) =>
+      let ans := map snd (item_evs 1 c) in
+      let nf := Z.of_nat (length (filter fail_class ans)) in
+      let ns := Z.of_nat (length (filter (fun s => negb (fail_class s)) ans)) in
+      Qle_bool (q_of x) (q_of (a_rate c)) &&
+      (if ns =? 0 then f =? nf else (nf - 1 <=? f) && (f <=? nf)) &&
+      (if existsb (fun s => 500 <=? s) ans then negb (Qle_bool (q_of (a_rate c)) (q_of x)) else true)
+  end.
+
 Definition adiffs (l : list acase) := bad_idx adiff_case l.
-Definition amons (l : list acase) := mon_idx [amon_penalty] l.
+Definition amons (l : list acase) := mon_idx [amon_penalty; amon_reported] l.
+
+(* -------------------------------------------------------------------------------------
+   Sweep stream (black box, real BucketManager with a SHORT cleanup period and a table far from
+   full): hosts in continuous use while cleanupLoop ticks.  Events as in the manager stream; t1 of
+   an event is read AFTER the table snapshot.  An access of host h that started at t0 stamps the
+   bucket at or after t0; a tick that deletes it must come more than [period] later. *)
+Record scase := SC0 { w_period : Z; w_cap : fl; w_rate : fl; w_evs : list mev }.
+Definition SW (period : int) (c r : fl) (evs : list mev) : scase := SC0 (iz period) c r evs.
+
+Definition ev_times (e : mev) : option (Z * Z) :=
+  match e with
+  | EWait _ a b _ | ESucc _ a b _ | EFail _ _ a b _ | EBlk _ a b _ => Some (a, b)
+  | _ => None
+  end.
+
+Definition usage_of (h : string) (s : snap) : option Z :=
+  match List.find (fun '(k, _) => String.eqb k h) s with Some (_, u) => Some u | None => None end.
+
+(* correspondence: usage counts follow getBucket; a key that left the table was swept (any sweep is a
+   behaviour of Manager.v's LCleanup label; WHEN a sweep may happen is monitor 0's business) *)
+Fixpoint sdiff_evs (m : manager) (l : list mev) : bool :=
+  match l with
+  | [] => false
+  | e :: r =>
+      let h := ev_host e in
+      let a := ev_after e in
+      let tabs := tab_snap m in
+      let reset := match usage_of h tabs, usage_of h a with
+                   | Some _, Some u => u =? Z.of_nat (ev_gets e)
+                   | _, _ => false
+                   end in
+      let gone := map fst (filter (fun '(k, _) => negb (has_key k a) && negb (String.eqb k h)) tabs)
+                  ++ (if reset then [h] else []) in
+      let m1 := MG (mg_max m) (mg_cap m) (mg_rate m) (fold_left (fun t k => remove k t) gone (mg_tab m)) in
+      match rep_get (ev_gets e) h "" m1 with
+      | None => true
+      | Some m2 =>
+          let m3 := if has_key h a then m2
+                    else MG (mg_max m2) (mg_cap m2) (mg_rate m2) (remove h (mg_tab m2)) in
+          negb (snap_eq (tab_snap m3) a) || sdiff_evs m3 r
+      end
+  end.
+Definition sdiff_case (c : scase) : bool :=
+  sdiff_evs (new_manager 1000000 (q_of (w_cap c)) (q_of (w_rate c))) (w_evs c).
+
+(* 0: sweep_spares_active_hosts on the observation: if host h, last accessed by a call started at
+   [last], is found swept by an event that ended at t1, then t1 - last > period *)
+Fixpoint spares_from (period : Z) (h : string) (last : option (Z * Z)) (l : list mev) : bool :=
+  match l with
+  | [] => true
+  | e :: r =>
+      let a := ev_after e in
+      match ev_times e with
+      | None => spares_from period h (match ev_gets e with O => last | _ => None end) r
+      | Some (t0, t1) =>
+          if String.eqb (ev_host e) h then
+            (match last, usage_of h a with
+             | Some (lt, lu), Some u => (u =? lu + Z.of_nat (ev_gets e)) || (period <? t1 - lt)
+             | Some (lt, _), None => period <? t1 - lt
+             | None, _ => true
+             end) &&
+            spares_from period h (match usage_of h a with Some u => Some (t0, u) | None => None end) r
+          else
+            match last with
+            | Some (lt, _) =>
+                if has_key h a then spares_from period h last r
+                else (period <? t1 - lt) && spares_from period h None r
+            | None => spares_from period h None r
+            end
+      end
+  end.
+Definition s_hosts (c : scase) : list string := nodup string_dec (map ev_host (w_evs c)).
+Definition smon_spares (c : scase) : bool :=
+  forallb (fun h => spares_from (w_period c) h None (w_evs c)) (s_hosts c).
+
+(* per host, split only where a sweep was POSSIBLE: between two accesses of the host whose distance
+   (start of the earlier call to end of the later one) exceeds the period *)
+Fixpoint active_evs (period : Z) (h : string) (last : option Z) (l : list mev) : list hev :=
+  match l with
+  | [] => []
+  | e :: r =>
+      if String.eqb (ev_host e) h then
+        match ev_times e with
+        | _ =>
+        match e, ev_times e with
+        | EConc _ ivs _ _ _ _, _ =>        (* releases of calls entered earlier: no getBucket here *)
+            map (fun '(a, b) => HRel a b) ivs ++ active_evs period h last r
+        | _, Some (t0, t1) =>
+            (match last with Some lt => if period <? t1 - lt then [HGone] else [] | None => [] end) ++
+            (match e with
+             | EWait _ a b _ => [HRel a b]
+             | EFail _ s a _ _ => if is_throttle s then [HThr a] else []
+             | _ => []
+             end) ++ active_evs period h (Some t0) r
+        | _, None => HGone :: active_evs period h None r
+        end
+        end
+      else active_evs period h last r
+  end.
+Definition per_active (c : scase) (f : list hev -> bool) : bool :=
+  forallb (fun h => forallb f (split_lives (active_evs (w_period c) h None (w_evs c)) [])) (s_hosts c).
+
+(* 1, 2: window bound and penalty for a host in continuous use, ACROSS cleanup ticks *)
+Definition smon_window (c : scase) := per_active c (win_all (q_of (w_cap c)) (q_of (w_rate c))).
+Definition smon_penalty (c : scase) := per_active c pen_all.
+
+Definition sdiffs (l : list scase) := bad_idx sdiff_case l.
+Definition smons (l : list scase) := mon_idx [smon_spares; smon_window; smon_penalty] l.
